@@ -349,6 +349,36 @@ def run_pure(cmd, out_path, seed, tier, n=None, replay=None, timeout=1800, extra
 # ---------------------------------------------------------------------------
 # Findings, violations, evidence
 
+def run_probes(res, pid, names):
+    """Scripted probes of harness/conc (TestProbes): clauses outside the transition models, judged by their own
+    assertions.  Each failing probe is a violation with the probe as the failing input."""
+    out = os.path.join(OUT, "%s-probes.txt" % pid.lower())
+    if os.path.exists(out):
+        os.remove(out)
+    env = dict(GOENV, VERIF_PROBES=",".join(names), VERIF_OUT=out)
+    rc, txt = sh([os.path.join(BUILD, "conc.test"), "-test.run", "^TestProbes$", "-test.timeout", "10m"], env=env, timeout=700)
+    seen = {}
+    if os.path.exists(out):
+        with open(out) as f:
+            for line in f:
+                p = line.rstrip("\n").split("\t")
+                if len(p) >= 3 and p[0] == "probe":
+                    seen[p[1]] = p[2:]
+    for n in names:
+        r = seen.get(n)
+        if r is None:
+            res.violation("probe:%s" % n, "probe %s did not report (exit %d)" % (n, rc),
+                          dict(kind="failing-input", probe=n, output=txt[-3000:],
+                               replay_cmd="VERIF_PROBES=%s VERIF_OUT=/dev/stdout build/conc.test -test.run '^TestProbes$'" % n),
+                          found_input=True)
+        elif r[0] != "ok":
+            res.violation("probe:%s" % n, "probe %s: %s" % (n, " ".join(r[1:])),
+                          dict(kind="failing-input", probe=n, result=r,
+                               replay_cmd="VERIF_PROBES=%s VERIF_OUT=/dev/stdout build/conc.test -test.run '^TestProbes$'" % n),
+                          found_input=True)
+    res.extra["probes"] = {n: (seen.get(n) or ["missing"])[0] for n in names}
+
+
 def known_findings():
     """Parse known_findings.txt: returns list of dict(property, key, text) for `finding:` lines."""
     out = []
